@@ -357,6 +357,10 @@ def check_tear(eng, run):
         for n in own_nodes(fn.node):
             if isinstance(n, ast.Assign) and any((dotted(t) or "").endswith("__is_shutdown") for t in n.targets):
                 ev_names |= {dotted(t) for t in n.targets if dotted(t)}
+                if isinstance(n.value, ast.Name):  # `ev = create_event(); self.__is_shutdown = ev`
+                    ev_names.add(n.value.id)
+            elif isinstance(n, ast.Assign) and (dotted(n.value) or "").endswith("__is_shutdown"):  # `ev = self.__is_shutdown`
+                ev_names |= {t.id for t in n.targets if isinstance(t, ast.Name)}
         a0 = cbs[0].args[0] if cbs and cbs[0].args else None
         ok = isinstance(a0, ast.Attribute) and a0.attr == "set" and dotted(a0.value) in ev_names
         if not ok:
